@@ -569,6 +569,7 @@ class C07(PropertyCheck):
         if M == 0:
             return ops + [{"op": "lp", "ref": 0, "id": 0}]
         st = {"ref": 1, "id": 0}
+        made = {}
 
         def new(content, plain=False):
             r = st["ref"]
@@ -581,7 +582,12 @@ class C07(PropertyCheck):
                     op["lay"] = rng.choice(["perm", "strided", "offset"])
                 if N == 2 and rng.random() < 0.2:
                     op["swap"] = True
+                if content[0] and rng.random() < 0.2:
+                    # the paths padded with eos up to the step limit (a no-op when the sample is that
+                    # wide already, or without eos / step limit)
+                    op["pad"] = True
             ops.append(op)
+            made[r] = op
             return r
 
         def sample():
@@ -664,7 +670,8 @@ class C07(PropertyCheck):
                     continue
                 r = new(c)
                 lp(r)
-                ops.append({"op": "set", "ref": r, "draws": o[0], "sshape": o[1]})
+                ops.append({"op": "set", "ref": r, "draws": o[0], "sshape": o[1], "swap": bool(made[r].get("swap")),
+                            "pad": bool(made[r].get("pad"))})
                 lp(r)
                 if rng.random() < 0.5:
                     lp(new(c, plain=True))
@@ -1318,7 +1325,6 @@ class C07(PropertyCheck):
         from pydrobert.torch.distributions import SequentialLanguageModelDistribution
         V, N, T = case["V"], case["N"], case["max_iters"]
         M = prodl(case["shape"])
-        n = N or 1
         batch = [] if N is None else [N]
         lm = self.walk_lm(case, shared=N is None)
         walk = RandomWalk(lm, case["eos"])
@@ -1362,6 +1368,8 @@ class C07(PropertyCheck):
                         tensors[op["ref"]] = s
                     elif kind == "new":
                         t = content(op, rows, S)
+                        if op.get("pad") and T is not None and norm_eos(case) is not None and S < T:
+                            t = torch.nn.functional.pad(t, (0, T - S), value=norm_eos(case))
                         if op.get("dtype"):
                             t = t.to({"f32": torch.float32, "f64": torch.float64, "i32": torch.int32}[op["dtype"]])
                         if op.get("lay") and t.numel():
@@ -1369,7 +1377,10 @@ class C07(PropertyCheck):
                         tensors[op["ref"]] = t
                     elif kind == "set":
                         # the caller edits a tensor it holds in place
-                        tensors[op["ref"]].copy_(content(op, rows, S))
+                        t = content(op, rows, S)
+                        if op.get("pad") and T is not None and norm_eos(case) is not None and S < T:
+                            t = torch.nn.functional.pad(t, (0, T - S), value=norm_eos(case))
+                        tensors[op["ref"]].copy_(t)
                     elif kind == "clear":
                         dist.clear_cache()
                     elif kind == "edit":
@@ -1402,7 +1413,8 @@ class C07(PropertyCheck):
         trace = []
         for op in script:
             if op["op"] in ("new", "set"):
-                trace.append({"op": op["op"], "ref": op["ref"], "idx": self.row_idx(op, N), "sshape": op["sshape"]})
+                trace.append({"op": op["op"], "ref": op["ref"], "idx": self.row_idx(op, N), "sshape": op["sshape"],
+                              "pad": bool(op.get("pad"))})
             elif op["op"] == "edit":
                 if op["id"] in ids:
                     trace.append({"op": "edit", "call": ids.index(op["id"])})
@@ -1821,7 +1833,7 @@ class C07(PropertyCheck):
                 out.append(f"t{op['ref']} = sample({case['shape']})")
             elif k in ("new", "set"):
                 what = f"draws {op['draws']} as sample shape {op['sshape']}"
-                extra = "".join(f", {f}={op[f]}" for f in ("dtype", "lay", "swap") if op.get(f))
+                extra = "".join(f", {f}={op[f]}" for f in ("dtype", "lay", "swap", "pad") if op.get(f))
                 out.append(f"t{op['ref']} = tensor({what}{extra})" if k == "new" else
                            f"t{op['ref']}.copy_({what})  # in place")
             elif k == "clear":
@@ -1838,7 +1850,6 @@ class C07(PropertyCheck):
         if self.err(impl):
             return [f"implementation raised {impl['error']}: {impl.get('message')}"]
         m = model["model"]
-        M = prodl(case["shape"])
         out = []
         if not model["flags"]["scored"]:
             raise RuntimeError("internal: the walks' scores (in the shape sample() caches them) differ from "
@@ -2162,14 +2173,14 @@ class C07(PropertyCheck):
         for op in self.script_of(case):
             k = op["op"]
             if k == "sample":
-                tens[op["ref"]] = (tuple(range(M * n)), tuple(case["shape"]))
+                tens[op["ref"]] = (tuple(range(M * n)), tuple(case["shape"]), False)
                 if M:
                     cache = (tens[op["ref"]], "sample")
             elif k in ("new", "set"):
-                tens[op["ref"]] = (tuple(self.row_idx(op, N)), tuple(op["sshape"]))
+                tens[op["ref"]] = (tuple(self.row_idx(op, N)), tuple(op["sshape"]), bool(op.get("pad")))
                 if k == "set":
                     t.add("sample.script.caller_edits_a_value_in_place")
-                for f in ("dtype", "lay", "swap"):
+                for f in ("dtype", "lay", "swap", "pad"):
                     if op.get(f):
                         t.add(f"sample.script.value_{f}={op[f]}")
             elif k == "clear":
@@ -2421,9 +2432,9 @@ class C07(PropertyCheck):
                     c["script"] = ops
                     yield c
             for i, op in enumerate(script):
-                if op["op"] == "new" and any(op.get(f) for f in ("dtype", "lay", "swap")):
+                if op["op"] == "new" and any(op.get(f) for f in ("dtype", "lay", "swap", "pad")):
                     c = dict(case)
-                    c["script"] = script[:i] + [{f: v for f, v in op.items() if f not in ("dtype", "lay", "swap")}] \
+                    c["script"] = script[:i] + [{f: v for f, v in op.items() if f not in ("dtype", "lay", "swap", "pad")}] \
                         + script[i + 1:]
                     yield c
         segs = ["hit_after_sample", "twice:full", "twice:one", "equal_copy", "edit_sample", "edit_value",
